@@ -1,7 +1,301 @@
-//! C19: threads profile: placeholder, filled in below.
-use crate::program::Program;
+//! C19: independent programs on 2..16 real threads. A seeded baton scheduler decides which thread performs
+//! the next top-level operation (threads are parked on a condvar and released one at a time), and when each
+//! thread exits; at exit a user thread-local still holds Ccs and objects are still buffered, and the relative
+//! destruction order of that thread-local and the collector's own is decided by first-touch order.
+
+use std::cell::RefCell;
+use std::sync::{Arc, Condvar, Mutex};
+
+use crate::alloc;
+use crate::leaves::AnyCc;
+use crate::program::*;
 use crate::run::RunResult;
-pub fn run_threads(_prog: &Program, _prop: &'static str, _verbose: bool) -> RunResult {
-    eprintln!("HARNESS-ERROR: threads profile not implemented yet");
-    std::process::exit(2);
+use crate::stats::Stats;
+use crate::world::*;
+
+struct UserTls {
+    kept: Vec<(AnyCc, ObjId)>,
+    touched: bool,
+}
+
+impl Drop for UserTls {
+    fn drop(&mut self) {
+        // Runs during thread teardown, before or after the collector's own thread-locals.
+        let Some(w) = world() else { return };
+        let buffer_gone = rust_cc::state::buffered_objects_count().is_err();
+        w.stats.borrow_mut().bump(if buffer_gone { "teardown_user_tls_after_collector_buffer" } else { "teardown_user_tls_before_collector_buffer" });
+        if !self.kept.is_empty() {
+            w.stats.borrow_mut().bump("teardown_dropped_ccs_from_user_tls");
+        }
+        {
+            let mut m = w.m.borrow_mut();
+            m.op_index += 1;
+            m.teardown = true;
+            m.buf_exact = false;
+        }
+        let kept = std::mem::take(&mut self.kept);
+        for (cc, o) in kept {
+            if w.dead.get() {
+                std::mem::forget(cc);
+                continue;
+            }
+            {
+                let mut m = w.m.borrow_mut();
+                if let Some(p) = m.tls_roots.iter().position(|x| *x == o) {
+                    m.tls_roots.remove(p);
+                }
+            }
+            let r = std::panic::catch_unwind(std::panic::AssertUnwindSafe(|| w.drop_cc(cc, o, "a Cc held by a user thread-local during thread teardown")));
+            if let Err(p) = r {
+                w.fail("O-THREAD.teardown-panic", format!("dropping a Cc from a thread-local destructor panicked: {}", crate::exec::panic_message(&p)));
+            }
+        }
+        if !w.dead.get() {
+            w.teardown_checks();
+        }
+    }
+}
+
+thread_local! {
+    static USER_TLS: RefCell<UserTls> = RefCell::new(UserTls { kept: Vec::new(), touched: false });
+}
+
+impl World {
+    /// What can still be checked while the thread is being torn down: allocator rules, release of what was dropped.
+    pub fn teardown_checks(&self) {
+        self.sync();
+        if self.dead.get() {
+            return;
+        }
+        if let Some(v) = alloc::take_violation() {
+            self.fail("O-ALLOC.ledger", v.describe());
+            return;
+        }
+        let m = self.m.borrow();
+        for (i, ob) in m.objs.iter().enumerate() {
+            if ob.box_addr == 0 {
+                continue;
+            }
+            let st = alloc::block(ob.box_addr).state;
+            if ob.status == Status::Live && st != alloc::BlockState::Live {
+                let msg = format!("thread teardown released the allocation of object {} whose value was never dropped", i);
+                drop(m);
+                self.fail("O-MEM.freed-alive", msg);
+                return;
+            }
+            if ob.status == Status::Dropped && st == alloc::BlockState::Live && !ob.tainted {
+                let msg = format!("object {} was dropped during thread teardown but its allocation was not released", i);
+                drop(m);
+                self.fail("O-FREED.box", msg);
+                return;
+            }
+        }
+    }
+}
+
+#[derive(Clone, Copy, PartialEq, Eq, Debug)]
+enum Turn {
+    Coordinator,
+    Thread(usize),
+}
+
+struct Baton {
+    turn: Mutex<Turn>,
+    cv: Condvar,
+}
+
+impl Baton {
+    fn wait_for(&self, me: Turn) {
+        let mut t = self.turn.lock().unwrap();
+        while *t != me {
+            t = self.cv.wait(t).unwrap();
+        }
+    }
+    fn give(&self, to: Turn) {
+        *self.turn.lock().unwrap() = to;
+        self.cv.notify_all();
+    }
+}
+
+struct ThreadOut {
+    violation: Option<Violation>,
+    stats: Stats,
+    hash: u64,
+    ops_done: u32,
+    buffered_at_exit: usize,
+}
+
+pub fn run_threads(prog: &Program, prop: &'static str, verbose: bool) -> RunResult {
+    let n = prog.threads.len();
+    alloc::begin_run();
+    rust_cc::verif::set_alloc_observer(Some(crate::callbacks::observer));
+    let baton = Arc::new(Baton { turn: Mutex::new(Turn::Coordinator), cv: Condvar::new() });
+    let outs: Arc<Mutex<Vec<Option<ThreadOut>>>> = Arc::new(Mutex::new((0..n).map(|_| None).collect()));
+    let dead_flag = Arc::new(std::sync::atomic::AtomicBool::new(false));
+    let mut handles = Vec::new();
+    // worlds outlive their threads' teardown: they are owned here
+    let worlds: Vec<Box<World>> = prog.threads.iter().map(|tp| Box::new(World::new(tp.knobs, vec![], prop, false))).collect();
+    let world_ptrs: Vec<usize> = worlds.iter().map(|w| &**w as *const World as usize).collect();
+    for (i, tp) in prog.threads.iter().cloned().enumerate() {
+        let baton = baton.clone();
+        let outs = outs.clone();
+        let wp = world_ptrs[i];
+        let dead_flag = dead_flag.clone();
+        let h = std::thread::Builder::new()
+            .stack_size(8 << 20)
+            .spawn(move || {
+                let me = Turn::Thread(i);
+                let w: &World = unsafe { &*(wp as *const World) };
+                baton.wait_for(me);
+                if tp.tls_first {
+                    // registered before the collector's thread-locals => destroyed after them
+                    USER_TLS.with(|u| u.borrow_mut().touched = true);
+                }
+                set_world(w as *const World);
+                w.thread_tag.set(i as u32);
+                alloc::set_tag(0);
+                let _ = rust_cc::verif::take_probes();
+                w.apply_knobs(&tp.knobs);
+                w.stats.borrow_mut().runs = 1;
+                w.m.borrow_mut().prog_ops = tp.ops.len() as u32;
+                baton.give(Turn::Coordinator);
+                let mut done = 0u32;
+                for op in &tp.ops {
+                    baton.wait_for(me);
+                    if !w.dead.get() && !dead_flag.load(std::sync::atomic::Ordering::SeqCst) {
+                        w.step(op);
+                        done += 1;
+                    }
+                    if w.dead.get() {
+                        dead_flag.store(true, std::sync::atomic::Ordering::SeqCst);
+                    }
+                    baton.give(Turn::Coordinator);
+                }
+                // final step: park some handles in the user thread-local; whatever else is held or buffered stays
+                baton.wait_for(me);
+                let mut buffered = 0;
+                if !w.dead.get() {
+                    let mut moved = 0;
+                    let nroots = w.m.borrow().root_obj.len();
+                    for r in 0..nroots {
+                        if moved >= tp.tls_keep {
+                            break;
+                        }
+                        if w.m.borrow().root_obj[r].is_some() {
+                            let (cc, o) = w.take_root(r);
+                            w.m.borrow_mut().tls_roots.push(o);
+                            USER_TLS.with(|u| u.borrow_mut().kept.push((cc, o)));
+                            moved += 1;
+                        }
+                    }
+                    // the remaining program-held handles are leaked on purpose (the thread just ends)
+                    let rest: Vec<usize> = {
+                        let m = w.m.borrow();
+                        (0..m.root_obj.len()).filter(|r| m.root_obj[*r].is_some()).collect()
+                    };
+                    for r in rest {
+                        if r % 2 == 0 && w.m.borrow().root_obj[r].is_some() && !w.dead.get() {
+                            w.drop_root_checked(r);
+                        }
+                    }
+                    w.after_op(false);
+                    buffered = rust_cc::state::buffered_objects_count().unwrap_or(0);
+                    if !tp.tls_first {
+                        USER_TLS.with(|u| u.borrow_mut().touched = true);
+                    }
+                }
+                baton.give(Turn::Coordinator);
+                // exit step: returning runs the thread-local destructors (user's and the collector's)
+                baton.wait_for(me);
+                outs.lock().unwrap()[i] = Some(ThreadOut { violation: None, stats: Stats::default(), hash: w.hash.get(), ops_done: done, buffered_at_exit: buffered });
+            })
+            .expect("spawn");
+        handles.push(Some(h));
+    }
+    // the schedule: which thread takes the next step; every thread needs ops + 3 steps (setup, final, exit)
+    let mut remaining: Vec<u32> = prog.threads.iter().map(|t| t.ops.len() as u32 + 3).collect();
+    let mut switches = 0u32;
+    let mut last = usize::MAX;
+    let mut sched_iter = prog.schedule.iter().copied();
+    let mut rr = 0usize;
+    loop {
+        if remaining.iter().all(|r| *r == 0) {
+            break;
+        }
+        let t = loop {
+            match sched_iter.next() {
+                Some(t) if (t as usize) < n && remaining[t as usize] > 0 => break t as usize,
+                Some(_) => continue,
+                None => {
+                    while remaining[rr % n] == 0 {
+                        rr += 1;
+                    }
+                    break rr % n;
+                }
+            }
+        };
+        if t != last {
+            switches += 1;
+            last = t;
+        }
+        remaining[t] -= 1;
+        baton.give(Turn::Thread(t));
+        if remaining[t] == 0 {
+            // exit step: wait for the thread to be gone, thread-local destructors included
+            if let Some(h) = handles[t].take() {
+                if h.join().is_err() {
+                    eprintln!("HARNESS-ERROR: a simulated thread panicked outside any operation");
+                    std::process::exit(2);
+                }
+            }
+            *baton.turn.lock().unwrap() = Turn::Coordinator;
+        } else {
+            baton.wait_for(Turn::Coordinator);
+        }
+    }
+    alloc::end_run();
+    let mut total = Stats::default();
+    let mut violation = None;
+    let mut hash: u64 = 0xcbf2_9ce4_8422_2325;
+    let mut active = 0;
+    let mut exit_buffered = false;
+    let outs = outs.lock().unwrap();
+    for (i, w) in worlds.iter().enumerate() {
+        if let Some(v) = w.violation.borrow().clone() {
+            violation.get_or_insert(v);
+        }
+        total.merge(&w.stats.borrow());
+        hash = (hash ^ w.hash.get()).wrapping_mul(0x0000_0100_0000_01B3).rotate_left(17);
+        if let Some(o) = &outs[i] {
+            if o.ops_done >= 3 {
+                active += 1;
+            }
+            exit_buffered |= o.buffered_at_exit > 0;
+        }
+    }
+    for t in &prog.schedule {
+        hash = (hash ^ *t as u64).wrapping_mul(0x0000_0100_0000_01B3);
+    }
+    if violation.is_none() {
+        if let Some(v) = alloc::take_violation() {
+            let viol = Violation { property: "C19", oracle: "O-ALLOC.ledger", msg: v.describe(), op_index: 0, frames: String::new() };
+            println!("@@VIOLATION property={} oracle={} op=end msg={}", viol.property, viol.oracle, viol.msg);
+            violation = Some(viol);
+        }
+    }
+    total.runs = 1;
+    if active >= 2 && switches >= 2 && exit_buffered {
+        total.nontrivial.insert("C19", 1);
+    }
+    total.add("threads_total", n as u64);
+    total.add("context_switches", switches as u64);
+    let _ = verbose;
+    drop(outs);
+    // The worlds are released only now, after every thread is gone. Handles a thread left behind are leaked, as the
+    // thread itself leaked them: a Cc must never be dropped on another thread.
+    for w in &worlds {
+        w.leak_tables();
+    }
+    drop(worlds);
+    RunResult { fault_counters: [0; FaultKind::COUNT], violation, hash, stats: total, faults_fired: 0, log: None }
 }
